@@ -385,7 +385,9 @@ func (s *Script) evalWithRoot(stack, data, root any) (any, Expr) {
 				}
 				stack = tstack
 			case []gen.Node:
-				if n, ok := v.(gen.Node); ok {
+				// A JSON null is a nil gen.Node which does not satisfy the type
+				// assertion but is a value that can match just the same.
+				if n, ok := v.(gen.Node); ok || v == nil {
 					tstack = append(tstack, n)
 					if 0 < len(locKeys) {
 						locs = append(locs, locKeys[vi])
